@@ -2337,32 +2337,32 @@ def oracle_options(case):
 
 
 _POST = {'post': 0.1, 'post_mut_in': 0.03, 'post_mut_out': 0.03, 'post_twin': 0.015, 'post_again': 0.015, 'post_rejudged': 0.03}
-_CELLS = {'almost': 0.045, 'edge': 0.04, 'sym': 0.04, 'sym_tri_neg': 0.012, 'origin_half': 0.02, 'props_dtype': 0.15, 'vec_decades': 0.05}
+_CELLS = {'almost': 0.045, 'edge': 0.038, 'sym': 0.04, 'sym_tri_neg': 0.012, 'origin_half': 0.02, 'props_dtype': 0.15, 'vec_decades': 0.05}
 
 CLAUSES = [
     Clause('supersize', oracle_supersize, supersize_cases, quick=5600, thorough=130000,
-           min_share=dict({'nt': 0.3, 'onface': 0.3, 'two_sided': 0.12, 'arg_np': 0.08, 'mults_distinct': 0.15, 'origin_small': 0.12,
+           min_share=dict({'nt': 0.3, 'onface': 0.28, 'two_sided': 0.12, 'arg_np': 0.08, 'mults_distinct': 0.15, 'origin_small': 0.12,
                            'multitype': 0.3, 'hist': 0.18, 'hist_origin': 0.06, 'forms': 0.28, 'whole': 0.05,
                            'scaled': 0.22, 'scale_1': 0.22, 'scale_si': 0.055, 'scale_small': 0.15, 'scale_big': 0.08,
                            'units': 0.025, 'arg_narrow': 0.18, 'pos_narrowint': 0.02}, **dict(_POST, **_CELLS)),
            desc='supersize: count, box, origin, volume; every replica maps back onto one original atom with its type/tag/vector, each original N times, no coincidences; all input forms and dtypes, after histories, under other working units; answers kept in a ledger while the caller overwrites what it handed in / got out and calls again'),
     Clause('rotate', oracle_rotate, rotate_cases, quick=15500, thorough=330000,
-           min_share=dict({'nt': 0.4, 'onface': 0.3, 'detneg': 0.2, 'hex4': 0.05, 'bigdet': 0.2, 'nearface': 0.05,
-                           'origin_small': 0.12, 'lefthanded': 0.03, 'rigid_rot': 0.08, 'multitype': 0.3, 'form_float': 0.06,
-                           'hist': 0.18, 'hist_origin': 0.06, 'forms': 0.27, 'whole': 0.04, 'opt': 0.15,
-                           'scaled': 0.22, 'scale_1': 0.22, 'scale_si': 0.06, 'scale_small': 0.15, 'scale_big': 0.08,
+           min_share=dict({'nt': 0.4, 'onface': 0.28, 'detneg': 0.2, 'hex4': 0.05, 'bigdet': 0.2, 'nearface': 0.05,
+                           'origin_small': 0.12, 'lefthanded': 0.03, 'rigid_rot': 0.08, 'multitype': 0.3, 'form_float': 0.048,
+                           'hist': 0.18, 'hist_origin': 0.06, 'forms': 0.26, 'whole': 0.04, 'opt': 0.15,
+                           'scaled': 0.22, 'scale_1': 0.22, 'scale_si': 0.057, 'scale_small': 0.15, 'scale_big': 0.08,
                            'units': 0.025, 'form_narrow': 0.06, 'form_noisy': 0.015, 'uvws_tri_neg': 0.05, 'post_mut_args_live': 0.012},
                           **dict(_POST, **_CELLS)),
            desc='rotate: proper rotation returned, box = T.(uvws.vects), LAMMPS form, atoms inside, count/volume x|det|, map-back through T with multiplicity |det|; all input forms, dtypes and options, after histories, under other working units; answers kept in a ledger while the caller overwrites what it handed in / got out and calls again'),
     Clause('refusal', oracle_refusal, refusal_cases, quick=2200, thorough=32000,
-           min_share={'nt': 0.9, 'coplanar': 0.08, 'nonint': 0.09, 'parallel': 0.05, 'shape': 0.05, 'hist': 0.2, 'forms': 0.22,
-                      'scaled': 0.2, 'scale_1': 0.22, 'scale_si': 0.05, 'scale_small': 0.15, 'scale_big': 0.06,
-                      'units': 0.03, 'almost': 0.05, 'sym': 0.04, 'nonint_near': 0.018, 'props_dtype': 0.15},
+           min_share={'nt': 0.9, 'coplanar': 0.08, 'nonint': 0.09, 'parallel': 0.05, 'shape': 0.049, 'hist': 0.2, 'forms': 0.22,
+                      'scaled': 0.2, 'scale_1': 0.22, 'scale_si': 0.05, 'scale_small': 0.15, 'scale_big': 0.054,
+                      'units': 0.03, 'almost': 0.047, 'sym': 0.04, 'nonint_near': 0.018, 'props_dtype': 0.15},
            desc='coplanar / parallel / non-integer (also 1e-4 off an integer) / wrong-shape vector sets raise the documented ValueError and leave the system and the argument untouched (whatever its history, under other working units)'),
     Clause('centering', oracle_centering, centering_cases, quick=5000, thorough=110000,
            min_share=dict({'nt': 0.45, 'c2p2c': 0.3, 'p2c2p': 0.15, 'setting_t1': 0.07, 'setting_t2': 0.07, 'setting_f': 0.08,
                            'nobasis': 0.12, 'multitype': 0.3, 'hist': 0.15, 'hist_origin': 0.04, 'forms': 0.24, 'entry_function': 0.09,
-                           'scaled': 0.22, 'scale_1': 0.22, 'scale_si': 0.06, 'scale_small': 0.16, 'scale_big': 0.06,
+                           'scaled': 0.22, 'scale_1': 0.22, 'scale_si': 0.057, 'scale_small': 0.16, 'scale_big': 0.054,
                            'units': 0.028, 'opt_smallshift': 0.12, 'opt_no_transform': 0.05, 'opt_no_check_family': 0.08}, **dict(_POST, **dict(_CELLS, sym_tri_neg=0.008, origin_half=0.015))),
            max_share={'refusal': 0.05},
            desc='conventional<->primitive conversions for p,a,b,c,i,f,t1,t2: same crystal, primitive lattice = centred lattice, N/k atoms, and the two conversions undo one another; all input forms, both entry points, every option, after histories, under other working units; answers kept in a ledger while the caller overwrites what it handed in / got out and calls again'),
